@@ -268,7 +268,14 @@ Error RACFGBuilder::on_instruction(InstNode* inst, InstControlFlow& control_type
               }
             }
 
-            ASMJIT_PROPAGATE(ib.add(work_reg, flags, use_regs, use_id, use_rewrite_mask, out_regs, out_id, out_rewrite_mask, op_rw_info.rm_size(), consecutive_parent));
+            // Only a register that follows another one in a register list has a consecutive parent - operands that
+            // come after the list (index vector of TBL|TBX, sources of VP2INTERSECT) are not part of it.
+            RAWorkReg* parent_reg = nullptr;
+            if (Support::test(flags, RATiedFlags::kUseConsecutive | RATiedFlags::kOutConsecutive) && !Support::test(flags, RATiedFlags::kLeadConsecutive)) {
+              parent_reg = consecutive_parent;
+            }
+
+            ASMJIT_PROPAGATE(ib.add(work_reg, flags, use_regs, use_id, use_rewrite_mask, out_regs, out_id, out_rewrite_mask, op_rw_info.rm_size(), parent_reg));
             if (single_reg_ops == i) {
               single_reg_ops++;
             }
